@@ -313,3 +313,10 @@ def r11_6(ctx):
     from .c14 import r14_1
 
     r14_1(ctx)
+
+
+@rule("R11.7", "C11", "register operands are declared exactly when they are used as variables: the initialise table of the READ block and the read table agree for every access class", min_instances=7)
+def r11_7(ctx):
+    from .c12 import r12_5
+
+    r12_5(ctx)
